@@ -145,6 +145,9 @@ type C16Case struct {
 	Ser     bool     `json:"ser"`
 	// ConcAttach: further peers attach from another goroutine while envelopes are flowing (race workloads)
 	ConcAttach bool `json:"conc_attach,omitempty"`
+	// LateAt >= 0: the last server cannot be dialled until envelope number LateAt has been sent (dials before that fail);
+	// such cases settle after every envelope so that each failed dial is fully processed
+	LateAt int `json:"late_at"`
 }
 
 func genC16(t *rapid.T) C16Case {
@@ -152,6 +155,11 @@ func genC16(t *rapid.T) C16Case {
 	c.PreAtt = rapid.IntRange(0, c.Servers).Draw(t, "preatt")
 	c.Rewrite = rapid.SampledFrom([]string{"none", "none", "alias", "badalias", "errsrc"}).Draw(t, "rewrite")
 	c.Batch = rapid.IntRange(1, 12).Draw(t, "batch")
+	c.LateAt = -1
+	if c.PreAtt < c.Servers && rapid.IntRange(0, 3).Draw(t, "late") == 0 {
+		c.LateAt = rapid.IntRange(0, 20).Draw(t, "late_at")
+		c.Batch = 1
+	}
 	var names []string
 	for i := 0; i < c.Clients; i++ {
 		names = append(names, fmt.Sprintf("c%d", i))
@@ -237,6 +245,9 @@ func (c C16Case) model() []pxDelivery {
 		if !attached[hop] {
 			continue // unknown peer: dial fails, envelope lost with it
 		}
+		if c.LateAt >= 0 && hop == fmt.Sprintf("s%d", c.Servers-1) && e.Tok < c.LateAt {
+			continue // not reachable yet: this dial fails too
+		}
 		out = append(out, pxDelivery{to: hop, from: e.From, tok: e.Tok, rec: rec, next: append([]string{}, next...), dst: dst})
 	}
 	return out
@@ -291,6 +302,9 @@ func execC16(t *testing.T, c C16Case) (v Verdict) {
 				w.attach(fmt.Sprintf("s%d", i))
 			} else {
 				w.dialable[fmt.Sprintf("s%d", i)] = true
+				if c.LateAt >= 0 && i == c.Servers-1 {
+					w.dialErr[fmt.Sprintf("s%d", i)] = true
+				}
 			}
 		}
 		kit.Settle()
@@ -317,7 +331,15 @@ func execC16(t *testing.T, c C16Case) (v Verdict) {
 			close(attached)
 		}
 		for i, e := range c.Envs {
+			if c.LateAt >= 0 && i == c.LateAt {
+				w.mu.Lock()
+				delete(w.dialErr, fmt.Sprintf("s%d", c.Servers-1)) // the peer comes up
+				w.mu.Unlock()
+			}
 			l := w.link(e.From)
+			if l == nil {
+				continue // a sender that is only reachable by dialling and has not been dialled yet cannot originate
+			}
 			_ = l.A.Write(context.Background(), c16Build(e))
 			if (i+1)%c.Batch == 0 {
 				kit.Settle()
@@ -406,7 +428,7 @@ func execC16(t *testing.T, c C16Case) (v Verdict) {
 			nt = true
 		}
 	}
-	v.Info = kit.CaseInfo{Labels: []string{"rewrite=" + c.Rewrite, fmt.Sprintf("dial_on_demand=%v", c.PreAtt < c.Servers), fmt.Sprintf("batch<=%d", c.Batch)}, NonTrivial: nt,
+	v.Info = kit.CaseInfo{Labels: []string{"rewrite=" + c.Rewrite, fmt.Sprintf("dial_on_demand=%v", c.PreAtt < c.Servers), fmt.Sprintf("batch<=%d", c.Batch), fmt.Sprintf("late_dialable=%v", c.LateAt >= 0)}, NonTrivial: nt,
 		Key: fmt.Sprintf("%+v", c), Sample: map[string]any{"clients": c.Clients, "servers": c.Servers, "pre_attached": c.PreAtt, "rewrite": c.Rewrite, "envelopes": len(c.Envs), "first": c.Envs[0]}}
 	return
 }
